@@ -170,6 +170,43 @@ def system_level(ctx: Ctx) -> None:
                                                                         f"at second 155 BOTH runners execute the global services: {executed}", {"kind": "system-stall", "backend": kind, "executed": executed})
             if ("second-window-runner", 155) not in executed:
                 ctx.obligation(f"system level (b) [{kind}]: the second-window runner executes at second 155", False, f"executed {executed}")
+            # ---- (c) runners WITH worker processes (process, persistent-process and multi-thread runners report their children's
+            #      heartbeats on every loop iteration): the steps of `run()` in their order - children's heartbeats, the check of the
+            #      global services, a plain iteration - for two such runners, every 5 s over two and a half cycles
+            app3 = make_app(kind, ctx.tmp, app_id=f"c12kids{kind}", runner_cls="ThreadRunner", atomic_service_interval_minutes=5.0,
+                            atomic_service_spread_margin_minutes=0.1, atomic_service_check_interval_minutes=0.5)
+            p1 = app3.runner
+            p2 = type(p1)(app3)
+            for pr, nm in ((p1, "p1"), (p2, "p2")):
+                pr.get_active_child_runner_ids = (lambda nm=nm: [f"{nm}-worker"])  # type: ignore[method-assign]
+            cur3 = {"r": None}
+            ran: list[tuple[str, int]] = []
+            app3.trigger.trigger_loop_iteration = lambda: ran.append((cur3["r"], clock.us // 1_000_000))  # type: ignore[method-assign]
+            base = clock.us // 1_000_000 % 300
+            clock.advance((300 - base) * 1_000_000)
+            t_start = clock.us // 1_000_000
+            for step in range(150):
+                for pr, nm in ((p1, "p1"), (p2, "p2")):
+                    cur3["r"] = nm
+                    pr._report_child_runner_heartbeats()
+                    pr._check_atomic_services()
+                    pr._report_child_runner_heartbeats()     # the following plain iterations of the loop
+                clock.advance(5_000_000)
+                ctx.count()
+            by_t: dict[int, set] = {}
+            for nm, t in ran:
+                by_t.setdefault(t, set()).add(nm)
+            both = sorted(t - t_start for t, who in by_t.items() if len(who) > 1)
+            cycles = {nm: {(t - t_start) // 300 for n2, t in ran if n2 == nm} for nm in ("p1", "p2")}
+            ctx.distinct((kind, "parents-with-workers", not both))
+            if both:
+                ctx.report(f"two-executing[{kind}]:runners-with-workers",
+                           f"[{kind}] two runners that report the heartbeats of their worker processes on every iteration (cycle 300 s, margin 6 s, checks every 30 s): BOTH execute the "
+                           f"global services at the same instants, first at +{both[0]} s ({len(both)} instants)", {"kind": "system-parents", "backend": kind, "first": both[0]})
+            for nm in ("p1", "p2"):
+                if not {0, 1} <= cycles[nm]:
+                    ctx.report(f"runner-without-window[{kind}]:runners-with-workers", f"[{kind}] runner {nm} (with a worker process) executed the global services in cycles {sorted(cycles[nm])} only",
+                               {"kind": "system-parents", "backend": kind, "runner": nm})
     finally:
         rb.time = real_time_mod
         clock.uninstall()
